@@ -52,7 +52,14 @@ class SWorld(World):
         n = str(getattr(cls, "name", ""))
         if o.kind == "exception":
             return n.endswith("Exception")
+        if o.kind == "rel_time":
+            return n.split(".")[-1] == "timedelta"
         return super().isinstance(it, o, cls)
+
+    def getattr(self, it, o, name):
+        if o.kind == "rel_time" and name in ("seconds", "days", "microseconds"):
+            return Opaque("rel_part", f"{o.name}.{name}", of=o)
+        return super().getattr(it, o, name)
 
     def new_iterator(self, it, iterable, pos=None):
         i = Opaque("iterator", f"iter#{len(self.iters)}", seq=iterable.attrs["seq"], pos=pos if pos is not None else IntSV(z3.IntVal(0)),
@@ -64,7 +71,10 @@ class SWorld(World):
         ctx = it.ctx
         if o.kind == "scheduler":
             if method in ("to_seconds", "to_timedelta", "to_datetime"):
-                return args[0]
+                a0 = args[0]
+                if isinstance(a0, Opaque) and a0.kind == "rel_time" and method == "to_seconds":
+                    return a0.attrs["total"]  # the scheduler's conversion (C36): the WHOLE span in seconds
+                return a0
             self.n += 1
             d = Opaque("disposable", f"{o.name}.{method}#{self.n}")
             self.log.append(("sched", o, method, list(args), dict(kwargs), d))
@@ -388,6 +398,10 @@ class SrcHarness:
             exc_is_exc = ctx.choose(2, "argument is an exception") == 0
             arg = Opaque("exception", "exc") if exc_is_exc else "message"
             obs = it.call(f, [arg, self.sched], {})
+        elif which == "timer_timespan" and ctx.choose(2, "the due time is given as a timedelta") == 1:
+            # a timedelta is an opaque span: only the scheduler's to_seconds (C36) says how many seconds it is - a component of it
+            # (.seconds, .microseconds: days and sign dropped) is another number
+            obs = it.call(f, [Opaque("rel_time", "duetime-as-timedelta", total=d), self.sched], {})
         else:
             obs = it.call(f, [d, self.sched], {})
         sub = self.subscribe_fn(obs)
